@@ -79,46 +79,51 @@ func altTxs(c *Ctx, hr *HistRun, i int) map[int64][][]byte {
 		}
 		b, _ := g2.NextBlock(h, hr.Times[h], pre, hr.Sim, hr.M.lastValidators(h), shadow)
 		out[h] = b.Txs
-		// directed conflicts that are checked but never delivered:
-		price := bigDec(pre.Params.GasPrice)
-		mk := func(k *Key, typ int32, to []byte, pl rctypes.ITrxPayload) {
-			a := pre.Accounts[k.A()]
-			if a == nil {
-				return
-			}
-			tx := mkTx(typ, k.Addr, to, a.Nonce, pre.Params.MinTrxGas+2, u256big(price), new(uint256.Int), pl, h*1_000_000+800_000+int64(len(out[h])))
-			out[h] = append(out[h], signTx(tx, k, hr.G.G.ChainID))
+		out[h] = append(out[h], directedConflicts(g2.Keys, hr.G.G.ChainID, pre, h, rng)...)
+	}
+	return out
+}
+
+// directedConflicts builds transactions that are valid against state pre but are only ever checked,
+// never delivered: validators with delegators withdrawing their own stake, every voter voting,
+// everybody withdrawing all rewards.
+func directedConflicts(keys map[string]*Key, chainID string, pre *MState, h int64, rng *rand.Rand) [][]byte {
+	var out [][]byte
+	price := bigDec(pre.Params.GasPrice)
+	mk := func(k *Key, typ int32, to []byte, pl rctypes.ITrxPayload) {
+		a := pre.Accounts[k.A()]
+		if a == nil {
+			return
 		}
-		// (1) every validator with delegators withdraws its own stakes (forces the release of the delegators)
-		for _, dk := range sortedKeys(pre.Delegatees) {
-			d := pre.Delegatees[dk]
-			k := g2.Keys[dk]
-			if k == nil || d.Total == d.Self {
-				continue
-			}
-			for _, st := range d.Stakes {
-				if st.Owner == dk {
-					mk(k, rctypes.TRX_UNSTAKING, addrBytes(dk), &rctypes.TrxPayloadUnstaking{TxHash: addrBytes(st.TxHash)})
-				}
-			}
+		tx := mkTx(typ, k.Addr, to, a.Nonce, pre.Params.MinTrxGas+2, u256big(price), new(uint256.Int), pl, h*1_000_000+800_000+int64(len(out)))
+		out = append(out, signTx(tx, k, chainID))
+	}
+	for _, dk := range sortedKeys(pre.Delegatees) {
+		d := pre.Delegatees[dk]
+		k := keys[dk]
+		if k == nil || d.Total == d.Self {
+			continue
 		}
-		// (2) every voter of every open proposal votes (for a random option)
-		for _, pk := range sortedKeys(pre.Proposals) {
-			p := pre.Proposals[pk]
-			if h < p.Start || h > p.End {
-				continue
-			}
-			for _, vk := range sortedKeys(p.Voters) {
-				if k := g2.Keys[vk]; k != nil {
-					mk(k, rctypes.TRX_VOTING, zeroAddr, &rctypes.TrxPayloadVoting{TxHash: addrBytes(pk), Choice: int32(rng.Intn(len(p.Options)))})
-				}
+		for _, st := range d.Stakes {
+			if st.Owner == dk {
+				mk(k, rctypes.TRX_UNSTAKING, addrBytes(dk), &rctypes.TrxPayloadUnstaking{TxHash: addrBytes(st.TxHash)})
 			}
 		}
-		// (3) everybody with a reward withdraws all of it
-		for _, rk := range sortedKeys(pre.Rewards) {
-			if k := g2.Keys[rk]; k != nil && pre.Rewards[rk].Cumulated.Sign() > 0 {
-				mk(k, rctypes.TRX_WITHDRAW, zeroAddr, &rctypes.TrxPayloadWithdraw{ReqAmt: u256big(pre.Rewards[rk].Cumulated)})
+	}
+	for _, pk := range sortedKeys(pre.Proposals) {
+		p := pre.Proposals[pk]
+		if h < p.Start || h > p.End || len(p.Options) == 0 {
+			continue
+		}
+		for _, vk := range sortedKeys(p.Voters) {
+			if k := keys[vk]; k != nil {
+				mk(k, rctypes.TRX_VOTING, zeroAddr, &rctypes.TrxPayloadVoting{TxHash: addrBytes(pk), Choice: int32(rng.Intn(len(p.Options)))})
 			}
+		}
+	}
+	for _, rk := range sortedKeys(pre.Rewards) {
+		if k := keys[rk]; k != nil && pre.Rewards[rk].Cumulated.Sign() > 0 {
+			mk(k, rctypes.TRX_WITHDRAW, zeroAddr, &rctypes.TrxPayloadWithdraw{ReqAmt: u256big(pre.Rewards[rk].Cumulated)})
 		}
 	}
 	return out
